@@ -225,7 +225,7 @@ IMPORTS = {
     "C01": "C02.R3 (exact replay of the early-boot allocations), C03.R1 (pool bitmap layout), C03.R2 (bad frees rejected), C10.R1/R2 (memory map decoded: every entry, at the bootloader's stride, unknown types reserved)",
     "C02": "C10.R1/R2 (memory map decoded: every entry, at the bootloader's stride, unknown types reserved)",
     "C03": "C02.R3 (exact replay of the early-boot allocations), C01.R4 (complete bitmap scan, one bit encoding), C10.R1/R2 (memory map decoded)",
-    "C05": "C07.R1 (reservations neither overlap nor wrap), C04.R1 (Map writes exactly the requested entry), C10.R5 non-empty-sections / section-reads-bounded (the ELF sections reported)",
+    "C05": "C07.R1 (reservations neither overlap nor wrap), C04.R1 (Map writes exactly the requested entry), C04.R7 (paging geometry: frame bits 12..51 of an entry), C10.R5 non-empty-sections / section-reads-bounded (the ELF sections reported)",
     "C06": "C04.R1, C04.R2 (Map writes exactly the requested entry and invalidates it)",
     "C07": "C04.R6 (page count of the region helpers)",
     "C09": "C08.R1-R3 (the spinlock itself), C03.R3 (bit changes paired with counter updates), C01.R4 (complete bitmap scan)",
